@@ -195,6 +195,8 @@ def replay(path):
     rp = json.load(open(path))
     bd = vp.build()
     wd = vp.workdir(PID, "replay")
+    if rp.get("lite"):
+        return ec.lite_replay(PID, path, rp, KINDS)
     if not rp.get("schedule"):
         print("replay: the violation came from a free-running stress; re-run the check")
         return 2
